@@ -445,6 +445,13 @@ def leaf_eval(r):
         ref = c[6] if len(c) > 6 else res
         return (res == ref, res == mv and res != "PANIC", "reader %s rep=%s field=%s data=%s init=%s -> %s (model %s)" % (k, rep, field, data, init, res, mv),
                 "|".join(c[:5]), len(data) > 3, k)
+    if s == "nreader":
+        k, rep, field, data, init, wrap, res = c[:7]
+        # property half: an error raised inside the callback is still reported after the call returns
+        # (decided against the model: Err() after Message/PresentMessage/RepeatedMessage = the model's)
+        return (res == mv and res != "PANIC", res == mv and res != "PANIC",
+                "reader %s rep=%s field=%s inside %s on %s init=%s -> %s (model %s)" % (k, rep, field, ["Message", "PresentMessage", "RepeatedMessage"][int(wrap) % 3], data, init, res, mv),
+                "n|" + "|".join(c[:6]), len(data) > 8, k)
     if s == "fnstr":
         f, impl, ref = c[:3]
         return (impl == ref, impl == mv, "FieldNumber(%s).String() = %s, strconv.Itoa = %s, model %s" % (f, impl, ref, mv), f, f not in ("0",), "fnstr")
